@@ -85,7 +85,12 @@ def run_world_pass(world, pspec, timeout=120.0):
 
 
 def compare_outcomes(world, results):
-    """I4: every op's outcome is the same in every pass that executed it."""
+    """I4: every op's outcome is the same in every pass that executed it.
+
+    Outcomes that involve Awkward values resolve classes through the global registry; they are compared
+    directly only between executions that saw the same *stable* registration state throughout.  An execution
+    that overlapped register_awkward() must still match one of the two linearisations (the outcome it has
+    when it runs entirely before, or entirely after, the registration) whenever the serial passes provide both."""
     viol = []
     ref = results[0]
     for res in results[1:]:
@@ -96,9 +101,19 @@ def compare_outcomes(world, results):
             if r is None or r[0] == "dep":
                 continue
             if len(r) > 4 and len(oc) > 4 and (r[4] or oc[4]):
-                # Awkward values resolve their class through the global registry: outcomes are comparable
-                # only between executions that saw the same registration state throughout the op
                 if r[2] != r[3] or oc[2] != oc[3] or r[2] != oc[2] or r[2] == 1:
+                    lin = {}
+                    for sres in results:
+                        if sres is res or not sres["name"].startswith(("P0", "P1")):
+                            continue
+                        so = sres["outcomes"].get(key)
+                        if so is not None and so[0] != "dep" and len(so) > 4 and so[2] == so[3] and so[2] in (0, 2):
+                            lin[so[2]] = so
+                    if len(lin) == 2 and oc[0] not in (lin[0][0], lin[2][0]):
+                        op = _op_of(world, key)
+                        viol.append({"prop": "C20", "inv": "I4", "aspect": "outcome-matches-no-linearisation", "site": f"{key}:{op['f']}",
+                                     "pass": res["name"],
+                                     "detail": f"before registration: {lin[0][1]} | after: {lin[2][1]} | {res['name']} (overlapping register_awkward): {oc[1]}"})
                     continue
             if r[0] != oc[0]:
                 op = _op_of(world, key)
